@@ -2546,6 +2546,7 @@ def geometric_vsop_pos(epoch, vsop_l, vsop_b, vsop_r, tofk5=True):
         delta_beta = 0.03916 * (cos(lambda_p.rad()) - sin(lambda_p.rad()))
         delta_beta = Angle(0, 0, delta_beta)
         lon += delta_lon
+        lon.to_positive()  # The small correction may cross 0 degrees
         lat += delta_beta
     return lon, lat, r
 
@@ -2584,6 +2585,7 @@ def apparent_vsop_pos(epoch, vsop_l, vsop_b, vsop_r, nutation=True):
     delta = -20.4898 / r
     delta = Angle(0, 0, delta)
     lon += delta
+    lon.to_positive()  # The corrections may cross 0 degrees
     return lon, lat, r
 
 
